@@ -10,8 +10,8 @@ from mc.world import make_calc, BASE
 PID = 'C12'
 LEVEL = 'model_checking'
 ENGINE = 'E1+E3'
-TECHNIQUE = 'exhaustive enumeration of all ordered wind lists of length 0..3 over a 12-segment alphabet on the real solver with relational oracles (permutation, causality, mirror, zero wind; bitwise), all query sequences through the real wind cursor, and an independent ODE reference for segment semantics'
-RULE = ('segment alphabet = {zero speed, 20 mph from 90, 0, 225 deg} x until {20 yd, 60 yd, none} (12 segments); list cells = every multiset of 0..3 '
+TECHNIQUE = 'exhaustive enumeration of all ordered wind lists of length 0..3 over a 16-segment alphabet on the real solver with relational oracles (permutation, causality, mirror, zero wind; bitwise), all query sequences through the real wind cursor, and an independent ODE reference for segment semantics'
+RULE = ('segment alphabet = {zero speed, 20 mph from 90, 0, 225 deg} x until {0, 20 yd, 60 yd, none} (16 segments); list cells = every multiset of 0..3 '
         'segments (quick: 0..2 plus a slice of 3); each cell fires every distinct ordering of the multiset, its mirror image, its extension by a zero-speed '
         'segment and every truncation to a sorted prefix, to 100 yd with 5-yd rows; sock cells = every sorted list x every increasing query sequence over '
         '{0,19,20,21,59,60,61,100} yd through the real _WindSock; ode cells = every ordered two-segment list against the RK4 reference; edit cells = lists edited in place after the shot was built (until-distances swapped, segment appended, '
@@ -23,7 +23,7 @@ LEVEL_TEXT = ('All ordered lists up to the bound are enumerated and related to e
               'machine is driven through all query sequences of the alphabet.')
 
 DIRS = ('Z', 90, 0, 225)
-UNTILS = (20, 60, None)
+UNTILS = (0, 20, 60, None)      # 0: a segment that ends at the muzzle (acts nowhere)
 SEGS = [(d, u) for d in DIRS for u in UNTILS]
 
 
